@@ -146,6 +146,9 @@ def gen_project(rng, max_files=5, max_pats=4, shared_lines=True, mixed_endings=T
     # the config file's own current_version line left to the IMPLICIT pattern, and file keys written as valid but
     # non-normalised paths (./x, a//b)
     pr["implicit_self"] = rng.random() < 0.35
+    # a GLOB key that also matches the config file itself (`"*.toml" = ['^version = "{version}"$']`, with a [project] table holding
+    # such a line): its patterns are merged with the implicit current_version pattern of the config file
+    pr["glob_self"] = pr["implicit_self"] and rng.random() < 0.4
     pr["key_alias"] = {}
     for f in layout:
         r = rng.random()
@@ -253,9 +256,13 @@ def toml_config(pr, extra=""):
     def q(s):
         return json.dumps(s, ensure_ascii=False)
     variants = bool(pr.get("variants"))
-    out = ["[bumpver]", "current_version = %s" % q(pr["old"]), "version_pattern = %s" % q(pr["vp"]), extra, "[bumpver.file_patterns]"]
+    glob_self = variants and pr.get("glob_self")
+    out = (["[project]", "version = %s" % q(pr["old"])] if glob_self else []) + \
+          ["[bumpver]", "current_version = %s" % q(pr["old"]), "version_pattern = %s" % q(pr["vp"]), extra, "[bumpver.file_patterns]"]
     if not (variants and pr.get("implicit_self")):
         out.append('"bumpver.toml" = [\'current_version = "{version}"\']')
+    if glob_self:
+        out.append('"*.toml" = [\'^version = "{version}"$\']')
     for path, pairs in pr["file_patterns"]:
         key = pr.get("key_alias", {}).get(path, path) if variants else path
         out.append("%s = [%s]" % (q(key), ", ".join(q(raw) for _vp, raw in pairs)))
